@@ -746,6 +746,17 @@ def check(ctx):
     okn = set(by_name) == {'ids', 'values', 'bounds'} and len(by_name['ids']) == 1 and len(by_name['values']) == 2 and len(by_name['bounds']) == 2
     rep.add('H4', f_ds.site(), 'both write paths create exactly the datasets ids, values and bounds', okn, expected="ids x1, values x2, bounds x2", found={k: len(v) for k, v in by_name.items()}, stmt='datasets written')
     rep.require(okn, '_init_datasets: dataset creation sites not recognised')
+    # ... and every file gets them: no `return` leaves _init_datasets before, on its own path, ids, values and bounds have been
+    # created (an empty or one-signature collection still needs all three - the reader opens them unconditionally)
+    def _gs(st_):
+        return {(id(t_), bool(p_)) for t_, p_ in gmd.get(st_, ())}
+    early = []
+    for r_ in [x for x in ast.walk(f_ds.node) if isinstance(x, ast.Return)]:
+        for nm in ('ids', 'values', 'bounds'):
+            done = any(st_.lineno < r_.lineno and _gs(st_) <= _gs(r_) for _, _, st_ in by_name[nm])
+            if not done:
+                early.append(f'line {r_.lineno}: returns before the dataset {nm!r} is created')
+    rep.add('H4', f_ds.site(), 'no exit leaves a file without one of its datasets', not early, expected='ids, values and bounds created on every path that returns', found=early[:3] or 'ok', stmt='dataset exits')
     reads = {}
     for n in ast.walk(f_init.node):
         if isinstance(n, ast.Subscript) and u(n.value) == g_in and isinstance(n.ctx, ast.Load):
@@ -840,6 +851,17 @@ def check(ctx):
             okf = count == sym('n') and at_index(lo, bname, 0) and at_index(hi, bname, 1) and at_index(val, sigs, 0) and bp[-1][2] is loop
     rep.add('H4', f_ds.site(fills[0] if fills else vl[0]), 'list path: signature i is written to values[bounds[i] : bounds[i+1]] for every i (the slice the reader uses)', okf,
             expected=f'for i in range(n): {vname}[{bname}[i]:{bname}[i + 1]] = {sigs}[i]', found=found_fill, stmt='list fill')
+    # ... and the fill is reached: no return / break between the creation of the values dataset and the end of the fill loop
+    if len(fills) == 1:
+        fs = fills[0]
+        loop_ = next((o for (_, _, o) in reversed(block_path(f_ds.node, fs)) if isinstance(o, (ast.For, ast.While))), None)
+        vst = next((st_ for c_, _, st_ in by_name['values'] if c_ is vl[0]), None)
+        lo_line = getattr(vst, 'lineno', fs.lineno)
+        hi_line = getattr(loop_, 'end_lineno', fs.lineno) if loop_ is not None else fs.lineno
+        cut = [x for x in ast.walk(f_ds.node) if isinstance(x, (ast.Return, ast.Break)) and lo_line < x.lineno <= hi_line]
+        gfs = {(id(t_), bool(p_)) for t_, p_ in gmd.get(fs, ())} - {(id(t_), bool(p_)) for t_, p_ in gmd.get(vst, ())} if vst is not None else set()
+        rep.add('H4', f_ds.site(cut[0] if cut else fs), 'list path: every signature is copied once the dataset exists (no exit / extra guard before or inside the fill loop)', not cut and not gfs,
+                expected='creation of values, then the fill loop, unconditionally', found=[f'line {x.lineno}: {u(x)}' for x in cut] + ([f'fill guarded by an extra test'] if gfs else []) or 'ok', stmt='list fill reached')
     for c, nm in ((va, 'array'), (vl[0], 'list')):
         rep.add('H5', f_ds.site(c), f'{nm} path: compression options are forwarded to the values dataset only', c is not None and has_starstar(c), expected='**values_kw', found=u(c), stmt=f'{nm} compression')
     # ids: the (data, dtype) handed to create_dataset('ids', ...) is computed by EXECUTING the function body for every numpy dtype kind
@@ -1060,6 +1082,9 @@ from ..variants import V  # noqa: E402
 _H = 'src/gambit/sigs/hdf5.py'
 _B = 'src/gambit/sigs/base.py'
 VARIANTS = [
+    V('guard clause: a one-signature list returns before the values are copied (early-exit probe)', 'B', 'src/gambit/sigs/hdf5.py', "\t\t\tfor i in range(n):\n\t\t\t\tvalues[bounds[i]:bounds[i + 1]] = signatures[i]", "\t\t\tif n == 1:\n\t\t\t\treturn\n\t\t\tfor i in range(n):\n\t\t\t\tvalues[bounds[i]:bounds[i + 1]] = signatures[i]", 'H4'),
+    V('guard clause: a one-signature collection returns before values and bounds are written (mutation probe)', 'B', 'src/gambit/sigs/hdf5.py', "\t\tgroup.create_dataset('ids', data=ids, dtype=ids_dtype)\n", "\t\tgroup.create_dataset('ids', data=ids, dtype=ids_dtype)\n\t\tif len(signatures) == 1:\n\t\t\treturn\n", 'H4'),
+    V('E: the array path returns from its own branch', 'E', 'src/gambit/sigs/hdf5.py', "\t\t\tgroup.create_dataset('bounds', data=signatures.bounds, dtype=BOUNDS_DTYPE)\n", "\t\t\tgroup.create_dataset('bounds', data=signatures.bounds, dtype=BOUNDS_DTYPE)\n\t\t\treturn\n"),
     V("writer misspells 'id_attr'", 'B', _H, "group.attrs['id_attr'] = none_to_empty(meta.id_attr, STR_DTYPE)", "group.attrs['idattr'] = none_to_empty(meta.id_attr, STR_DTYPE)", 'H'),
     V('new metadata field not stored', 'B', _B, "\tdescription : Optional[str] = attrib(default=None, kw_only=True, repr=False)\n", "\tdescription : Optional[str] = attrib(default=None, kw_only=True, repr=False)\n\tsource : Optional[str] = attrib(default=None, kw_only=True)\n", 'H2'),
     V('bounds[:-1] = cumsum', 'B', _H, "bounds[1:] = np.cumsum(sizes, dtype=BOUNDS_DTYPE)", "bounds[:-1] = np.cumsum(sizes, dtype=BOUNDS_DTYPE)", 'H4'),
